@@ -535,7 +535,7 @@ get_next_token0() {
       // instantiation and call yacc recursively to parse the template
       // parameters.
       CPPDeclaration *decl = ident->find_template(current_scope, global_scope);
-      if (decl != nullptr) {
+      if (decl != nullptr && decl->get_template_scope() != nullptr) {
         if (decl->as_concept() != nullptr) {
           nested_skip_template_instantiation(decl->get_template_scope());
         } else {
@@ -597,6 +597,10 @@ get_next_token0() {
         // parameters.
         CPPDeclaration *decl =
           ident->find_template(current_scope, global_scope);
+        if (decl != nullptr && decl->get_template_scope() == nullptr) {
+          // Found something by that name that is not actually a template.
+          decl = nullptr;
+        }
         if (decl != nullptr) {
           if (decl->as_concept() != nullptr) {
             nested_skip_template_instantiation(decl->get_template_scope());
